@@ -37,6 +37,7 @@ STANDARD_CHECKS = ['bounds-check', 'pointer-check', 'pointer-primitive-check', '
                    'signed-overflow-check', 'undefined-shift-check']
 CHECK_FLAGS = []
 
+DEFAULT_UNWIND = 260
 EXIT_OK, EXIT_VIOLATION, EXIT_UNDECIDED = 0, 1, 2
 
 
@@ -95,6 +96,17 @@ def find_units(pid):
     for f in sorted(os.listdir(d)):
         if f.endswith('.c'):
             out.append(Unit(os.path.join(d, f)))
+    # units of another property this property's argument depends on (e.g. C04 composes the encoder proof
+    # with C05's receiver refinement lemmas): listed one per line in units/<PID>/INCLUDE
+    inc = os.path.join(d, 'INCLUDE')
+    if os.path.exists(inc):
+        for line in open(inc):
+            line = line.split('#')[0].strip()
+            if line:
+                u = Unit(os.path.join(VERIF, 'units', line))
+                u.included_from = u.pid
+                u.pid = pid
+                out.append(u)
     return out
 
 
@@ -156,7 +168,7 @@ class CaseResult:
         return self.undecided is None and not self.failed
 
 
-def _stage_injected(unit, work, specs_key='inject'):
+def _stage_injected(unit, work, specs_key='inject', lenient_loops=False):
     """Write injected copies of /repo files into work/overlay; return report."""
     overlay = os.path.join(work, 'overlay')
     os.makedirs(overlay, exist_ok=True)
@@ -182,7 +194,7 @@ def _stage_injected(unit, work, specs_key='inject'):
             raise Undecided('%s: source %s missing' % (unit.name, rel))
         text = open(src, errors='replace').read()
         try:
-            new, rep = inj.inject(text, specs, unit.meta.get('ghost_calls', ()))
+            new, rep = inj.inject(text, specs, unit.meta.get('ghost_calls', ()), lenient_loops=lenient_loops)
         except inj.InjectError as e:
             raise Undecided('%s: injection anchor failed in %s: %s' % (unit.name, rel, e))
         for r in rep:
@@ -271,7 +283,7 @@ def run_case(unit, case, tier, work, extra_defines=(), witness=False, want_trace
         # witness mode keeps the injected ghost statements (the co-simulation must run there
         # too); the injected loop-contract clauses are simply not applied (no
         # --apply-loop-contracts), so the loops are unwound instead
-        overlay, report = _stage_injected(unit, work)
+        overlay, report = _stage_injected(unit, work, lenient_loops=witness)
         res.inject_report = report
         defines = ['-D' + GUARD, '-DVC_CBMC']
         for k, v in sorted(case.items()):
@@ -346,7 +358,10 @@ def run_case(unit, case, tier, work, extra_defines=(), witness=False, want_trace
         flags = list(CHECK_FLAGS)
         flags += m.get('checks_extra', [])
         flags += SOLVER_FLAGS[solver]
-        unwind = m.get('unwind')
+        # Loops that carry no contract and are not in `unwindset` (none on the unchanged tree; a code change
+        # may introduce one) are unwound up to DEFAULT_UNWIND with unwinding assertions: complete when those pass,
+        # "undecided" when only they fail.
+        unwind = m.get('unwind', DEFAULT_UNWIND)
         if witness:
             unwind = m.get('witness', {}).get('unwind', 12)
         if unwind:
@@ -403,6 +418,13 @@ def run_case(unit, case, tier, work, extra_defines=(), witness=False, want_trace
                 o['source'] = open(f, errors='replace').read().splitlines()[int(ln) - 1].strip()[:240]
             except Exception:
                 pass
+        if not witness and res.failed:
+            real = [o for o in res.failed if o['status'] == 'FAILURE' and 'unwinding assertion' not in o['description']]
+            unw = [o for o in res.failed if o['status'] == 'FAILURE' and 'unwinding assertion' in o['description']]
+            if unw and not real:
+                res.failed = []
+                raise Undecided('%s: a loop without contract needs more than %s iterations (%s)' %
+                                (res.label, unwind, unw[0]['id']))
         if not witness:
             if not res.obligations:
                 raise Undecided('%s: zero obligations generated' % res.label)
@@ -501,7 +523,7 @@ def native_replay(unit, case, witness_vals, work, extra_defines=()):
     m = unit.meta
     # the native build uses the same injected/extracted copy (ghost statements run natively,
     # contract clauses are defined away by cprover_native.h)
-    overlay, _ = _stage_injected(unit, work)
+    overlay, _ = _stage_injected(unit, work, lenient_loops=True)
     exe = os.path.join(work, 'replay')
     cmd = ['clang', '-g', '-O0', '-fsanitize=address,undefined', '-fno-sanitize-recover=undefined',
            '-fno-builtin', '-w',
